@@ -116,10 +116,21 @@ theorem nc_markUnits (l : List Item) : nc (markUnits l) = nc l := by
 
 theorem nc_collapsePuns (l : List Item) : nc (collapsePuns l) = nc l := by
   fun_induction collapsePuns l with
-  | case1 a rest h ih => simp [ih, Item.isComment]
-  | case2 a rest h ih => simp [ih]
-  | case3 x rest h ih => simp [ih]
-  | case4 => rfl
+  | case1 => rfl
+  | case2 a rest cs tail h hf ih =>
+    have e := spanComments_append rest
+    rw [h] at e
+    simp only at e
+    rw [← e]
+    simp [ih, Item.isComment]
+  | case3 a rest cs tail h hf ih =>
+    have e := spanComments_append rest
+    rw [h] at e
+    simp only at e
+    rw [← e]
+    simp [ih, Item.isComment]
+  | case4 a rest h ih => simp [ih, Item.isComment]
+  | case5 x rest h ih => simp [ih]
 
 theorem nc_essential (l : List Item) : nc (essential l) = nc l := by
   fun_induction essential l with
